@@ -1157,7 +1157,7 @@ impl Property for C15 {
         r
     }
     fn rule(&self) -> String {
-        "same generated histories as C02 (about one case in 300 is instead a real-thread stress: 2-8 OS threads x 4000/30000 calls through clones of one limiter whose window never ends, timeout 0-5 ms, with more permits than calls - nobody rejected - or with l permits - exactly l admitted at their first poll). Oracles: every caller is admitted or rejected (RateLimited) no later than arrival + timeout_duration and nobody is undecided at a quiescent instant past it; an admitted caller enters the inner service exactly once and gets its own response, a rejected or cancelled-while-waiting caller never enters; a caller denied entry in its arrival instant implies >= limit admissions within the last P (fixed, log) / 3P (counter: widest span of its two buckets); after >= 2P without any activity the next limit arrivals enter in their arrival instants. Non-trivial: the case has a rejection, a waited admission or an arrival after >= 2P of idleness; distinct by hash of the case".into()
+        "same generated histories as C02 (about one case in 300 is instead a real-thread stress: 2-8 OS threads x 4000/30000 calls through clones of one limiter whose window never ends, timeout 0-5 ms, with more permits than calls - nobody rejected - or with l permits (1-2000, or 65000-70000 with enough calls to pass them) - exactly l admitted at their first poll). Oracles: every caller is admitted or rejected (RateLimited) no later than arrival + timeout_duration and nobody is undecided at a quiescent instant past it; an admitted caller enters the inner service exactly once and gets its own response, a rejected or cancelled-while-waiting caller never enters; a caller denied entry in its arrival instant implies >= limit admissions within the last P (fixed, log) / 3P (counter: widest span of its two buckets); after >= 2P without any activity the next limit arrivals enter in their arrival instants. Non-trivial: the case has a rejection, a waited admission or an arrival after >= 2P of idleness; distinct by hash of the case".into()
     }
     fn assumptions(&self) -> Vec<String> {
         vec![
